@@ -1,0 +1,24 @@
+//go:build verif
+
+package tglib
+
+// Verification hook (build tag "verif" only; the normal build does not contain this file).
+// Kernel SCTP is not available in the verification sandbox, so instead of dialling the AMF the emulator
+// adopts an already connected socket whose descriptor number is given in STGUTG_VERIF_N2_FD. Everything
+// after the connection (NG Setup, all procedures) is the unmodified code.
+
+import (
+	"fmt"
+	"os"
+	"strconv"
+
+	"github.com/ishidawataru/sctp"
+)
+
+func ConnectToAmf(amfIP, stgIP string, amfPort, stgPort int) (*sctp.SCTPConn, error) {
+	fd, err := strconv.Atoi(os.Getenv("STGUTG_VERIF_N2_FD"))
+	if err != nil || fd < 0 {
+		return nil, fmt.Errorf("verif hook: STGUTG_VERIF_N2_FD is not a descriptor number: %v", err)
+	}
+	return sctp.NewSCTPConn(fd, nil), nil
+}
